@@ -554,6 +554,32 @@ func genPrimMac(r *rand.Rand, n int) []string {
 			}
 		}
 		out = append(out, fmt.Sprintf("prim.macverify %d %s %s %s", alg, hx(k), hx(data), hx(t)))
+		if i%5 == 1 { // the right tag followed by zero octets / by 0xff octets (padding-like extensions), 1..24 of them
+			pad := make([]byte, 1+(i/5)%24)
+			if (i/5)%2 == 1 {
+				for j := range pad {
+					pad[j] = 0xff
+				}
+			}
+			out = append(out, fmt.Sprintf("prim.macverify %d %s %s %s", alg, hx(k), hx(data), hx(append(append([]byte{}, tag...), pad...))))
+		}
+		if i%25 == 13 { // a message whose tag ends in a zero octet, presented without it
+			for try := 0; try < 2000; try++ {
+				d2 := randBytes(r, 1+r.Intn(40))
+				t2, e2 := safeBytes(func() ([]byte, error) { return m.MACCreate(d2) })
+				if e2 != nil {
+					break
+				}
+				if t2[len(t2)-1] == 0 {
+					cut := len(t2) - 1
+					for cut > 0 && t2[cut-1] == 0 {
+						cut--
+					}
+					out = append(out, fmt.Sprintf("prim.macverify %d %s %s %s", alg, hx(k), hx(d2), hx(t2[:cut])))
+					break
+				}
+			}
+		}
 		if i%5 == 2 && len(k) == keySizeOf(alg) { // the key's alg member changes after construction (a sibling of the family, or anything)
 			fam := hmacAlgs
 			if isIn(alg, aesmacAlgs) {
@@ -687,6 +713,17 @@ func genPrimKdf(r *rand.Rand, n int) []string {
 		secret := randBytes(r, []int{0, 1, 16, 32, 33, 64, 100}[r.Intn(7)])
 		salt := randBytes(r, []int{0, 0, 1, 32, 64, 65, 200}[r.Intn(7)])
 		info := randBytes(r, r.Intn(201))
+		if i%17 == 11 { // info that is itself a COSE_KDF_Context naming some key length: opaque to HKDF, any output length goes
+			kdl := []int{128, 256, 512, 0}[(i/17)%4]
+			ctx := []byte{0x84, 0x01, 0x83, 0xf6, 0xf6, 0xf6, 0x83, 0xf6, 0xf6, 0xf6, 0x82}
+			ctx = append(ctx, (&cnode{mt: 0, n: uint64(kdl)}).emit(nil, nil, nil)...)
+			ctx = append(ctx, 0x44, 0xa1, 0x01, 0x38, 0x18)
+			if (i/17)%3 == 2 { // the five-member form
+				ctx[0] = 0x85
+				ctx = append(ctx, 0x41, 0x07)
+			}
+			info = ctx
+		}
 		if i%17 == 7 { // patterned secrets and salts
 			secret, salt = patterned([]int{16, 32, 64}[(i/17)%3], i/17/3), patterned([]int{0, 32, 64}[(i/17)%3], i/17/3+1)
 		}
